@@ -80,7 +80,7 @@ def C05(tier, seed):
 
 
 def C06(tier, seed):
-    return hist_plan(["C06"], tier, seed, must={"swap": 50, "collect_protocol_fees": 5},
+    return hist_plan(["C06"], tier, seed, tokens=("spl", "t22fee"), shards_q=4, must={"swap": 50, "swap_v2": 50, "collect_protocol_fees": 5},
                      explanation="per-step fee formula, protocol cut, growth fold, trader/vault deltas and Traded event of every swap; protocol fee collection")
 
 
